@@ -134,10 +134,13 @@ class Compiler:
             {}
         )  # bytecode_pos -> (line, column)
         self._current_loc: Optional[Tuple[int, int]] = None  # Current source location
+        self._instantiated: set = set()  # ids of function declarations created on entry
 
     def compile(self, node: Program) -> CompiledFunction:
         """Compile a program to bytecode."""
         body = node.body
+        self._declare_program_vars(node)
+        self._instantiate_functions(body)
 
         # Compile all statements except the last one
         for stmt in body[:-1] if body else []:
@@ -430,6 +433,39 @@ class Compiler:
                         ):
                             self._collect_var_decls(item, var_set)
 
+    # ---- Declaration instantiation ----
+
+    def _declare_program_vars(self, node: Program) -> None:
+        """Create the var bindings of a program before its first statement.
+
+        A name declared with var (or function) anywhere in the program exists,
+        holding undefined, from the start; a binding that already exists (an
+        earlier script of the same context) keeps its value.
+        """
+        names: set = set()
+        self._collect_var_decls(node, names)
+        for name in sorted(names):
+            idx = self._add_name(name)
+            self._emit(OpCode.TYPEOF_NAME, idx)
+            self._emit(OpCode.LOAD_CONST, self._add_constant("undefined"))
+            self._emit(OpCode.SEQ)
+            skip = self._emit_jump(OpCode.JUMP_IF_FALSE)
+            self._emit(OpCode.LOAD_UNDEFINED)
+            self._emit(OpCode.STORE_NAME, idx)
+            self._emit(OpCode.POP)
+            self._patch_jump(skip)
+
+    def _instantiate_functions(self, statements: List[Node]) -> None:
+        """Create the functions declared directly in a statement list on entry
+        to it (program, function body, block, switch body), in source order, so
+        that they can be used before the declaration is reached."""
+        for stmt in statements:
+            while isinstance(stmt, LabeledStatement):
+                stmt = stmt.body
+            if isinstance(stmt, FunctionDeclaration):
+                self._compile_function_declaration(stmt)
+                self._instantiated.add(id(stmt))
+
     # ---- Statements ----
 
     def _compile_statement(self, node: Node) -> None:
@@ -444,6 +480,7 @@ class Compiler:
             while work_stack:
                 current = work_stack.pop()
                 if isinstance(current, BlockStatement):
+                    self._instantiate_functions(current.body)
                     # Push body statements in reverse order
                     for stmt in reversed(current.body):
                         work_stack.append(stmt)
@@ -459,7 +496,11 @@ class Compiler:
                 if decl.init:
                     self._compile_expression(decl.init)
                 else:
-                    self._emit(OpCode.LOAD_UNDEFINED)
+                    # The binding exists since entry; without an initialiser
+                    # the declaration leaves its value alone
+                    if self._in_function:
+                        self._add_local(name)
+                    continue
 
                 if self._in_function:
                     # Inside function: use local variable
@@ -834,6 +875,8 @@ class Compiler:
                 self._compile_statement(node.finalizer)
 
         elif isinstance(node, SwitchStatement):
+            for case in node.cases:
+                self._instantiate_functions(case.consequent)
             self._compile_expression(node.discriminant)
 
             jump_to_body: List[Tuple[int, int]] = []
@@ -883,32 +926,9 @@ class Compiler:
             self.loop_stack.pop()
 
         elif isinstance(node, FunctionDeclaration):
-            # Compile function
-            func = self._compile_function(node.id.name, node.params, node.body)
-            func_idx = len(self.functions)
-            self.functions.append(func)
-
-            const_idx = self._add_constant(func)
-            self._emit(OpCode.LOAD_CONST, const_idx)
-            self._emit(OpCode.MAKE_CLOSURE, func_idx)
-
-            name = node.id.name
-            if self._in_function:
-                # Inside function: use local or cell variable
-                cell_idx = self._get_cell_var(name)
-                if cell_idx is not None:
-                    # Variable is captured - store in cell
-                    self._emit(OpCode.STORE_CELL, cell_idx)
-                else:
-                    # Regular local
-                    self._add_local(name)
-                    slot = self._get_local(name)
-                    self._emit(OpCode.STORE_LOCAL, slot)
-            else:
-                # At program level: use global variable
-                idx = self._add_name(name)
-                self._emit(OpCode.STORE_NAME, idx)
-            self._emit(OpCode.POP)
+            # Created on entry to the enclosing statement list
+            if id(node) not in self._instantiated:
+                self._compile_function_declaration(node)
 
         elif isinstance(node, LabeledStatement):
             # Create a loop context for the label
@@ -943,6 +963,34 @@ class Compiler:
                 f"Cannot compile statement: {type(node).__name__}"
             )
 
+    def _compile_function_declaration(self, node: FunctionDeclaration) -> None:
+        """Create the function of a declaration and bind its name."""
+        func = self._compile_function(node.id.name, node.params, node.body)
+        func_idx = len(self.functions)
+        self.functions.append(func)
+
+        const_idx = self._add_constant(func)
+        self._emit(OpCode.LOAD_CONST, const_idx)
+        self._emit(OpCode.MAKE_CLOSURE, func_idx)
+
+        name = node.id.name
+        if self._in_function:
+            # Inside function: use local or cell variable
+            cell_idx = self._get_cell_var(name)
+            if cell_idx is not None:
+                # Variable is captured - store in cell
+                self._emit(OpCode.STORE_CELL, cell_idx)
+            else:
+                # Regular local
+                self._add_local(name)
+                slot = self._get_local(name)
+                self._emit(OpCode.STORE_LOCAL, slot)
+        else:
+            # At program level: use global variable
+            idx = self._add_name(name)
+            self._emit(OpCode.STORE_NAME, idx)
+        self._emit(OpCode.POP)
+
     def _compile_statement_for_value(self, node: Node) -> None:
         """Compile a statement leaving its completion value on the stack.
 
@@ -960,6 +1008,7 @@ class Compiler:
 
             # Drill down through nested blocks, collecting intermediate statements
             while isinstance(current, BlockStatement):
+                self._instantiate_functions(current.body)
                 if not current.body:
                     # Empty block returns undefined
                     for stmt in intermediate_stmts:
@@ -1083,6 +1132,10 @@ class Compiler:
         local_vars_set = set(self.locals)
         if isinstance(node.body, BlockStatement):
             self._collect_var_decls(node.body, local_vars_set)
+        # Update locals list with collected vars
+        for var in sorted(local_vars_set):
+            if var not in self.locals:
+                self.locals.append(var)
 
         # Find variables captured by inner functions
         captured = self._find_captured_vars(node.body, local_vars_set)
@@ -1098,6 +1151,7 @@ class Compiler:
             self._emit(OpCode.RETURN)
         else:
             # Block body: compile statements
+            self._instantiate_functions(node.body.body)
             for stmt in node.body.body:
                 self._compile_statement(stmt)
             # Implicit return undefined
@@ -1198,6 +1252,7 @@ class Compiler:
         self._outer_locals.pop()
 
         # Compile function body
+        self._instantiate_functions(body.body)
         for stmt in body.body:
             self._compile_statement(stmt)
 
